@@ -22,10 +22,10 @@ Definition spec_of (m : matcher) : matchspec :=
   end.
 
 Inductive query :=
-| QNodeFindAll (start : Z) (data : option did) (mt : option nat) (data_id : option did) (add_self : bool) (k : Z)
-| QNodeFindFirst (start : Z) (data : option did) (mt : option nat) (data_id : option did)
-| QTreeFindAll (data : option did) (mt : option nat) (data_id : option did) (k : Z)
-| QTreeFindFirst (data : option did) (mt : option nat) (data_id : option did) (node_id : option Z)
+| QNodeFindAll (start : Z) (data : option did) (mt : option Z) (data_id : option did) (add_self : bool) (k : Z)
+| QNodeFindFirst (start : Z) (data : option did) (mt : option Z) (data_id : option did)
+| QTreeFindAll (data : option did) (mt : option Z) (data_id : option did) (k : Z)
+| QTreeFindFirst (data : option did) (mt : option Z) (data_id : option did) (node_id : option Z)
 | QGet (k : key)
 | QContains (k : key)
 | QDel (k : key).
@@ -43,10 +43,10 @@ Definition St (f : forest) (r : list (Z * Z)) (ix : list (did * list Z)) : tstat
 Definition sx_res {X} (g : X -> sx) (r : res X) : sx :=
   match r with Ok x => L [A 0%Z; g x] | Err e => L [A 1%Z; sx_nat e] end.
 
-Definition get_matcher (ms : list matcher) (mt : option nat) : res (option matchspec) :=
+Definition get_matcher (ms : list matcher) (mt : option Z) : res (option matchspec) :=
   match mt with
   | None => Ok None
-  | Some i => match nth_error ms i with Some m => Ok (Some (spec_of m)) | None => Err EModel end
+  | Some i => match nth_error ms (Z.to_nat i) with Some m => Ok (Some (spec_of m)) | None => Err EModel end
   end.
 
 Definition run_query (st : tstate) (ms : list matcher) (q : query) : sx :=
